@@ -487,16 +487,34 @@ class Visitor(ast.NodeVisitor):
     def visit_Dict(self, node: ast.Dict) -> Union[Dict[Any, Any], Placeholder]:
         """Visit keys and values and assemble a dictionary with the results."""
         recomputed_dict = dict()  # type: Dict[Any, Any]
+        placeholder_observed = False
+
         for key, val in zip(node.keys, node.values):
-            assert isinstance(key, ast.AST)
             assert isinstance(val, ast.AST)
 
-            recomputed_dict[self.visit(node=key)] = self.visit(node=val)
+            if key is None:
+                # The value is unpacked into the display (``{**some_dict, ...}``).
+                unpacked = self.visit(node=val)
+                if unpacked is PLACEHOLDER:
+                    placeholder_observed = True
+                else:
+                    recomputed_dict.update(unpacked)
+
+                continue
+
+            assert isinstance(key, ast.AST)
+
+            recomputed_key = self.visit(node=key)
+            recomputed_value = self.visit(node=val)
+
+            if recomputed_key is PLACEHOLDER:
+                placeholder_observed = True
+            else:
+                recomputed_dict[recomputed_key] = recomputed_value
 
         # Please see "NOTE ABOUT PLACEHOLDERS AND RE-COMPUTATION"
-        if any(
-            key is PLACEHOLDER or value is PLACEHOLDER
-            for key, value in recomputed_dict.items()
+        if placeholder_observed or any(
+            value is PLACEHOLDER for value in recomputed_dict.values()
         ):
             return PLACEHOLDER
 
